@@ -34,7 +34,7 @@ def run(E: Engine, rep: Report, tier: str) -> dict:
     where = E.where(mn, slot.node)
     # 2*rise_time*in_eom_mode (a bool used as a factor) is also written (2*rise_time if in_eom_mode else 0)
     EOM_TERMS = ("2 * Q_ch.rise_time * Q_eom", "(2 * Q_ch.rise_time if Q_eom else 0)")
-    BUFS = tuple(f"max(Q_ch.phase_jump_time, {t_}) + Q_lp.fall_time(Q_ch, in_eom_mode=Q_eom) - Q_t0 + Q_ls.tf" for t_ in EOM_TERMS)
+    BUFS = tuple(f"max(Q_ch.phase_jump_time, {t_}) + Q_lp.fall_time(Q_ch, in_eom_mode=Q_eomfall) - Q_t0 + Q_ls.tf" for t_ in EOM_TERMS)
 
     def has_buf(t_):
         for b_ in BUFS:
@@ -49,7 +49,13 @@ def run(E: Engine, rep: Report, tier: str) -> dict:
     for t_ in EOM_TERMS:
         m2 = m2 or has(ti, f"max(Q_ch.phase_jump_time, {t_})")
     rep.check(m2 is not None and is_(m2["Q_eom"], "Q__.in_eom_mode()") is not None, "FLOW", "phase_jump_buffer|2*rise_time-in-eom", "max(phase_jump_time, 2*rise_time*in_eom_mode)", "in EOM mode the buffer no longer enforces at least 2*rise_time (max(phase_jump_time, 2*rise_time*in_eom_mode()) not found in the start time)", where)
-    m3 = has(ti, "max(Q_ch.phase_jump_time, Q__) + Q_lp.fall_time(Q_ch, in_eom_mode=Q_eom) + QS_rest")
+    m3 = has(ti, "max(Q_ch.phase_jump_time, Q__) + Q_lp.fall_time(Q_ch, in_eom_mode=Q_eomfall) + QS_rest")
+    # ... the fall time of the mode the LAST PULSE was played in: the EOM fall time only if that pulse's own slot lies in an
+    # EOM block (`in_eom_mode(<last pulse slot>)`), not merely because the channel is in EOM mode now
+    if full is not None:
+        ef = full["Q_eomfall"]
+        per_slot = any(t[0] == "call" and t[1][0] == "attr" and t[1][2] == "in_eom_mode" and t[2] and t[2][0] == full["Q_ls"] for t in sym.subterms(ef))
+        rep.check(per_slot, "FLOW", "phase_jump_buffer|fall-time-of-the-last-pulse's-own-mode", "fall_time(..., in_eom_mode=<... in_eom_mode(last_pulse_slot)>)", f"the last pulse's fall time is computed with `in_eom_mode={sh(ef, 60)}`, the channel's CURRENT mode: a regular pulse followed by enable_eom_mode() and an EOM pulse of another phase gets the short EOM fall time, and with a custom EOM buffer below 2*rise_time the phase jump comes before the regular pulse has ramped down", where)
     rep.check(m3 is not None, "FLOW", "phase_jump_buffer|plus-fall_time", "the last pulse's fall time is added", "the buffer no longer adds the last pulse's fall time (in the mode the channel is in) to the phase-jump time", where)
     rep.check(full is not None, "FLOW", "phase_jump_buffer|minus-elapsed", "minus the time already elapsed since the last pulse (t0 - last_pulse_slot.tf)", "the time already elapsed since the last pulse (t0 - last_pulse_slot.tf) is no longer subtracted from the buffer", where)
     rep.check(full is not None, "FLOW", "phase_jump_buffer|shape", "max(jump, 2*rise*eom) + fall_time - (t0 - last_pulse_slot.tf)", "the buffer between pulses of different phase is no longer max(phase_jump_time, 2*rise_time*in_eom) + fall_time - (t0 - last_pulse.tf)", where)
@@ -112,7 +118,14 @@ def run(E: Engine, rep: Report, tier: str) -> dict:
     wf = E.method(SCHED, "wait_for_fall")
     order = [(node.id, i, e) for node, i, e in fl.all_events()]
     i_wait = next((k for k, (_a, _b, e) in enumerate(order) if e.kind == "call" and any(c.innermost() is wf for c, _m in e.callees)), None)
-    i_last = next((k for k, (_a, _b, e) in enumerate(order) if e.kind == "call" and e.text.endswith("[-1]")), None)
+    # (a read of the last slot inside the `if <last>.targets == <new targets>: return` test decides only whether anything
+    #  is done at all: it may precede the wait -- retargeting to the same atoms inserts nothing, not even the fall time)
+    noop_tests = [n_.test for n_ in ast.walk(at.node) if isinstance(n_, ast.If) and n_.body and isinstance(n_.body[0], ast.Return) and any(isinstance(c_, ast.Compare) and any(isinstance(o_, ast.Eq) for o_ in c_.ops) and "targets" in ast.unparse(c_) for c_ in ast.walk(n_.test))]
+    in_noop = {id(x_) for t_ in noop_tests for x_ in ast.walk(t_)}
+    i_last = next((k for k, (_a, _b, e) in enumerate(order) if e.kind == "call" and e.text.endswith("[-1]") and id(e.node) not in in_noop), None)
+    # retargeting to the atoms the channel already targets returns BEFORE the wait for the fall time
+    i_noop = next((k for k, (_a, _b, e) in enumerate(order) if e.kind == "call" and e.text.endswith("[-1]") and id(e.node) in in_noop), None)
+    rep.check(i_noop is not None and i_wait is not None and i_noop < i_wait, "FLOW", "add_target|same-targets-return-before-the-wait", "`if <last>.targets == qubits_set: return` precedes wait_for_fall", "add_target waits for the last pulse's fall time before it tests whether the targets change: a no-op target() on a Local channel with a modulation bandwidth appends a delay as long as that fall time, where retargeting to the same atoms must insert nothing", E.where(at))
     rep.check(i_wait is not None and i_last is not None and i_wait < i_last, "FLOW", "add_target|wait_for_fall-before-reading-last", "the previous pulse ramps down before the retarget starts", "add_target reads the last slot before waiting for the fall time: the retarget could start while the pulse is still ramping down", E.where(at))
     Sa = S(E, at)
     tslots = [l for l in Sa.calls("_TimeSlot") if l.fn == at.short]
